@@ -99,7 +99,7 @@ def theorem_names(pid):
         if m and ns and ns[-1] == m.group(1):
             ns.pop()
             continue
-        m = re.match(r"^(?:private\s+)?theorem\s+([A-Za-z_0-9'.]+)", line)
+        m = re.match(r"^(?:private\s+)?theorem\s+([^\s:({\[]+)", line)
         if m:
             names.append(".".join(ns + [m.group(1)]))
     return names
